@@ -120,8 +120,14 @@ def r1(ctx):
                     problems.append(f"{k} comes from `{p[1]}` but the rows come from {sorted(roots)}")
             elif p[0] == "fresh" and s.f.qname == "batchie.data.Screen.load_h5":
                 e = s.kw[k]
-                if isinstance(e, ast.Call) and common.h5_read_key(e) is None and (common.attr_tail(e) or "") in {fn.name for fn in R.funcs.values()}:
-                    raise AnalysisError(f"{s.site}: `{k}` is restored through the helper call `{U(e)[:60]}`; which datasets it reads is undecided")
+                if common.is_helper_call(ctx, s.f, e):
+                    h, keys, may_none = common.helper_h5_keys(ctx, s.f, e)
+                    W = common.h5_writes(ctx.fn("data.Screen.save_h5").node)
+                    unknown = [x for x in keys if ("ds", x) not in W]
+                    if unknown:
+                        problems.append(f"{k} is restored through {h.site()} which reads dataset(s) {unknown} the writer never writes" +
+                                        (" and then falls back to None: ids are re-encoded from the rows on every reload" if may_none else ""))
+                    continue
                 ok = isinstance(e, ast.Tuple) and all(common.h5_read_key(x) is not None for x in e.elts)
                 if not ok:
                     problems.append(f"{k} is not the stored mapping read from the file: {U(e)[:80]}")
